@@ -659,15 +659,30 @@ fn item_units(fmt: Fmt, it: &Item) -> usize {
 // engine access
 // ------------------------------------------------------------------------------------------
 
-fn pools() -> &'static Vec<(usize, rayon::ThreadPool)> {
-    static P: OnceLock<Vec<(usize, rayon::ThreadPool)>> = OnceLock::new();
-    P.get_or_init(|| [1usize, 2, 16].iter().map(|n| (*n, rayon::ThreadPoolBuilder::new().num_threads(*n).build().expect("pool"))).collect())
+/// Pools are built once: the 16-thread pool is shared by all harness workers, the 1- and 2-thread
+/// pools exist once per harness worker (a shared 1-thread pool would serialise the workers).
+fn big_pool() -> &'static rayon::ThreadPool {
+    static P: OnceLock<rayon::ThreadPool> = OnceLock::new();
+    P.get_or_init(|| rayon::ThreadPoolBuilder::new().num_threads(16).build().expect("pool"))
+}
+thread_local! {
+    static SMALL_POOLS: [rayon::ThreadPool; 2] = [
+        rayon::ThreadPoolBuilder::new().num_threads(1).build().expect("pool"),
+        rayon::ThreadPoolBuilder::new().num_threads(2).build().expect("pool"),
+    ];
+}
+
+fn in_pool<T: Send>(threads: usize, f: impl FnOnce() -> T + Send) -> T {
+    match threads {
+        1 => SMALL_POOLS.with(|p| p[0].install(f)),
+        2 => SMALL_POOLS.with(|p| p[1].install(f)),
+        _ => big_pool().install(f),
+    }
 }
 
 fn load(db: &mut SparqlDatabase, fmt: Fmt, doc: &str, threads: usize, two_step: bool) -> Result<(), PanicSite> {
-    let pool = &pools().iter().find(|(n, _)| *n == threads).expect("pool size").1;
     catch(|| {
-        pool.install(|| match fmt {
+        in_pool(threads, || match fmt {
             Fmt::Nt => {
                 if two_step {
                     for t in db.parse_and_encode_ntriples(doc) {
@@ -944,6 +959,14 @@ fn check_case(c: &Case) -> Outcome {
     let t = flatten(&items);
     let (doc, meta) = render(c, fmt, &items, [None; 3], 0, true);
     let prior = build_prior(c, &e);
+    if std::env::var_os("C13_DUMP").is_some() {
+        // goes to the log file: the documents of a (replayed) case, for reports
+        eprintln!("---- C13_DUMP case {c:?}\n---- prior ({} statements, kind {}):", prior.len(), c.prior_kind % 3);
+        for g in &prior {
+            eprintln!("{} {} {} {}", nt_term(&g.s, hash), nt_term(&g.po[0].0, hash), nt_term(&g.po[0].1[0], hash), g.g.as_ref().map(|g| nt_term(g, hash)).unwrap_or_default());
+        }
+        eprintln!("---- main document ({}, {} lines/units):\n{doc}\n---- end", fmt.name(), meta.units);
+    }
 
     // ---- classes
     let units = meta.units;
@@ -1136,9 +1159,9 @@ fn check_case(c: &Case) -> Outcome {
                     let d = diff(&b.iter().cloned().collect(), a).unwrap_or_default();
                     match n3_side {
                         Some(n3) if unq(n3) == canonical && lit_quotes(Fmt::N3) => {
-                            o.fail("c13.n3.literal_keeps_quotes", format!("the same {} statements load differently from {} and {}: the N3 loader stores plain literals with their quotes, every other loader and add_triple_parts store the bare value ({} as second argument = expected): {d}", t2.len(), fa.name(), fb.name(), fb.name()));
+                            o.fail("c13.n3.literal_keeps_quotes", format!("the same {} statements load differently from {} and {}: the N3 loader stores plain literals with their quotes, every other loader and add_triple_parts store the bare value (`missing` = stored from {}, `unexpected` = stored from {}): {d}", t2.len(), fa.name(), fb.name(), fb.name(), fa.name()));
                         }
-                        _ => o.fail(format!("c13.cross.{}_{}", fa.name().min(fb.name()), fa.name().max(fb.name())), format!("the same {} statements load differently from {} and {}: {d}", t2.len(), fa.name(), fb.name())),
+                        _ => o.fail(format!("c13.cross.{}_{}", fa.name().min(fb.name()), fa.name().max(fb.name())), format!("the same {} statements load differently from {} and {} (`missing` = stored from {}, `unexpected` = stored from {}): {d}", t2.len(), fa.name(), fb.name(), fb.name(), fa.name())),
                     }
                 }
             }
@@ -1184,7 +1207,7 @@ impl Part for Random {
         "random"
     }
     fn cases(&self, tier: Tier) -> u32 {
-        tier.pick(1200, 30_000)
+        tier.pick(800, 30_000)
     }
     fn strategy(&self, tier: Tier) -> BoxedStrategy<Case> {
         let shape = (prop_oneof![2u16..12, 30u16..400, 4000u16..6000], 1u8..6, prop_oneof![Just(0u8), 1u8..7], any::<bool>(), any::<bool>(), prop::bool::weighted(0.25), prop::bool::weighted(0.3));
@@ -1285,7 +1308,15 @@ fn boundary_cells(tier: Tier, seed: u64) -> Vec<Case> {
             }
         }
     }
-    v
+    // run_enum hands out blocks of 64 consecutive cases per worker: deal the cells so that every
+    // block gets the same share of big documents (order inside the enumeration is irrelevant)
+    v.sort_by_key(|c| std::cmp::Reverse(c.target));
+    let blocks = v.len().div_ceil(64).max(1);
+    let mut dealt: Vec<Vec<Case>> = vec![vec![]; blocks];
+    for (i, c) in v.into_iter().enumerate() {
+        dealt[i % blocks].push(c);
+    }
+    dealt.into_iter().flatten().collect()
 }
 
 fn main() {
